@@ -2,5 +2,5 @@
 EXTENDS RpycServer
 MCGood == {"g1", "g2"}
 MCBad == {"b1", "b2"}
-MCBadKinds == {"random_bytes", "truncated_packet", "huge_length", "corrupt_zlib", "garbage_payload", "connect_only", "auth_fail", "half_header"}
+MCBadKinds == {"random_bytes", "truncated_packet", "huge_length", "corrupt_zlib", "garbage_payload", "connect_only", "auth_fail", "half_header", "poison_reply"}
 ====================================================================================
